@@ -217,6 +217,64 @@ fn mutant_sentences(src: &mut Src, st: &mut Stats, _env: &Env) -> CaseResult {
     Ok(())
 }
 
+/// Chains of one binary operator are left-nested in the public Ast, exactly
+/// (no flattening of sub-expression chains here): `A | B | C` is
+/// `Subexpr(Subexpr(A, B), C)`, and likewise for `||`, `&&`, comparators and
+/// dots, where A, B, C are generated sentences parsed on their own.
+fn chains(src: &mut Src, st: &mut Stats, _env: &Env) -> CaseResult {
+    use crate::refast::Shape;
+    let op = *src.pick(&["|", "||", "&&", "==", "<", "."]);
+    let n = 3 + src.below(3);
+    let mut parts: Vec<String> = vec![];
+    for _ in 0..n {
+        // operands that cannot absorb or be absorbed by the operator: parenthesised or atomic
+        let t = if op == "." {
+            src.pick(&["a", "b", "foo", "\"k k\"", "length(@)", "[a, b]", "{k: a}"]).to_string()
+        } else {
+            match gen_sentence(src, st, 2) {
+                Some(t) => format!("({})", t),
+                None => "a".to_string(),
+            }
+        };
+        parts.push(t);
+    }
+    let sep = if op == "." { ".".to_string() } else { format!(" {} ", op) };
+    let text = parts.join(&sep);
+    st.eval();
+    let whole = match parse_shape("chains", &text) {
+        Ok(s) => s,
+        Err(f) => return Err(f),
+    };
+    let mut want: Option<Shape> = None;
+    for ptxt in &parts {
+        let ps = parse_shape("chains", ptxt)?;
+        want = Some(match want {
+            None => ps,
+            Some(acc) => match op {
+                "|" | "." => Shape::Subexpr(Box::new(acc), Box::new(ps)),
+                "||" => Shape::Or(Box::new(acc), Box::new(ps)),
+                "&&" => Shape::And(Box::new(acc), Box::new(ps)),
+                "==" => Shape::Comparison(crate::refast::CmpOp::Eq, Box::new(acc), Box::new(ps)),
+                _ => Shape::Comparison(crate::refast::CmpOp::Lt, Box::new(acc), Box::new(ps)),
+            },
+        });
+    }
+    let want = want.unwrap();
+    if !whole.same(&want) {
+        return Err(Failure::new(
+            "chains",
+            "chain-not-left-nested",
+            format!("public Ast {:?} but a chain of `{}` is left-associative: {:?}", whole, op, want),
+            json!({"expression": text}),
+        ));
+    }
+    st.class(&format!("chain:{}", op));
+    if st.nontrivial(&text) {
+        st.sample(|| json!({"expression": text, "operator": op, "operands": n}));
+    }
+    Ok(())
+}
+
 const ENUM_DOC: &str = "{\"a\":[{\"a\":[[1,2],[3]],\"b\":[1,2]},{\"a\":{\"a\":5},\"b\":[3]},[4,[5]]],\"x\":1}";
 
 /// Exhaustive small scope: every token sequence up to a length bound; the
@@ -352,6 +410,7 @@ pub fn property() -> Property {
             Sub::Custom(CustomSub { name: "corpus", run: corpus_all, replay: replay_text }),
             Sub::Custom(CustomSub { name: "repeats", run: repeats, replay: replay_repeat }),
             Sub::Custom(CustomSub { name: "enumerate", run: enumerate, replay: replay_enumerated }),
+            Sub::Bytes(BytesSub { name: "chains", f: chains, max_len: 1200, quick: Budget { threads: 8, cases: 3000 }, thorough: Budget { threads: 16, cases: 60_000 }, keep_unreproducible: false }),
             Sub::Bytes(BytesSub { name: "tree-shape", f: tree_shape, max_len: 1500, quick: Budget { threads: 16, cases: 8000 }, thorough: Budget { threads: 16, cases: 100_000 }, keep_unreproducible: false }),
             Sub::Bytes(BytesSub { name: "unparen", f: unparen, max_len: 1500, quick: Budget { threads: 16, cases: 8000 }, thorough: Budget { threads: 16, cases: 150_000 }, keep_unreproducible: false }),
             Sub::Custom(CustomSub { name: "fuzz-syntax_diff", run: fuzz_run, replay: fuzz_replay }),
